@@ -28,7 +28,7 @@ Proof. exact lowered_params_are_declared. Qed.
 
 (** the interface entry of a name and the IR that the name lowers to come from one definition:
     in an accepted program, lowering by the name of any definition gives the IR of that very
-    definition (finding F17-2, repaired: two transactions of one name were accepted) *)
+    definition (finding F17-3, repaired: two transactions of one name were accepted) *)
 Theorem C17_lower_by_name_unambiguous : forall p t,
   analyze_ok p = true -> t ∈ sp_txs p -> lower p (st_name t) = lower_tx p t.
 Proof. exact lower_by_name_unambiguous. Qed.
